@@ -480,7 +480,7 @@ def one_run(check, seed, i, cfg):
         mon = None
         if cfg.get("observer"):
             from . import tracemon
-            mon = tracemon.Monitor("profile" if (i + j) % 2 == 0 else "trace", ms["name"] + ".py", ms.setdefault("spans", tracemon.function_spans(ms["src"])),
+            mon = tracemon.make(("profile", "trace", "both")[(i + j) % 3], ms["name"] + ".py", ms.setdefault("spans", tracemon.function_spans(ms["src"])),
                                    ms.setdefault("f19", sorted(tracemon.funcs_returning_inside_try_finally(ms["src"]))))
             mon.install()
         try:
